@@ -249,6 +249,16 @@ Proof.
   rewrite firstn_all2 in Hc; [exact Hc|]. unfold zlen in H. lia.
 Qed.
 
+(* pass-through decisions agree wherever the detectors do, and hand back the value itself *)
+Lemma pass_through_agree v : 15 <= zlen v ->
+  pass_through go_is_envelope v = pass_through py_is_envelope v /\
+  pass_through go_is_envelope v = pass_through js_is_envelope v /\
+  (forall p, pass_through go_is_envelope v = Some p -> p = v).
+Proof.
+  intros H. unfold pass_through. rewrite <- go_py_agree, <- (go_js_agree_long v H).
+  repeat split. intros p. destruct (go_is_envelope v); [discriminate|]. now intros [= <-].
+Qed.
+
 (* ---------- encoding ---------- *)
 Lemma prefixb_app m r : prefixb m (m ++ r) = true.
 Proof. induction m as [|c m IH]; [reflexivity|]. cbn. now rewrite Z.eqb_refl. Qed.
